@@ -170,3 +170,24 @@ func complitFields(v ssa.Value) (map[string]ssa.Value, *ssa.Alloc) {
 	}
 	return out, a
 }
+
+// addrOfFieldOrCopy: v is &x.f, or the address of a local that holds a one-time copy of x.f (h := x.f; … &h).
+func addrOfFieldOrCopy(v ssa.Value, f *types.Var) bool {
+	if fa, ok := v.(*ssa.FieldAddr); ok {
+		return fieldOfAddr(fa) == f
+	}
+	al, ok := v.(*ssa.Alloc)
+	if !ok {
+		return false
+	}
+	n, okCopy := 0, false
+	for _, rf := range *al.Referrers() {
+		if st, ok := rf.(*ssa.Store); ok && st.Addr == ssa.Value(al) {
+			n++
+			if lf, _ := loadedField(st.Val); lf == f {
+				okCopy = true
+			}
+		}
+	}
+	return n == 1 && okCopy
+}
